@@ -13,7 +13,7 @@ LEVEL_NOTE = ("Lean theorem fit_discards: fit(D) on any policy state equals fit(
               "and by the twin 'refitted bandit vs fresh bandit given the same generator state before fit(D)' for every policy "
               "combination incl. LSH tables and planes, clusters, trees.")
 
-PROFILE = {"name": "C07", "lp": G.CF_KINDS + G.LIN_KINDS, "np": [None, None] + G.NP_KINDS,
+PROFILE = {"name": "C07", "allow_scale": True, "lp": G.CF_KINDS + G.LIN_KINDS, "np": [None, None] + G.NP_KINDS,
            "weights": {"fit": 3, "pfit": 3, "query": 3, "add": 1, "rem": 0.7, "warm": 0.7}}
 
 
